@@ -153,6 +153,13 @@ pub fn gen(tier: &str, r: &mut Rng) -> Vec<String> {
         lines.push("END".to_string());
         push(&mut out, r, (lines.join("\n") + "\n").into_bytes(), "seqres");
     }
+    // REMARK lines around the 80-column limit whose length in bytes and in characters differ, and with a tab inside
+    for n in 60..=74usize {
+        for pre in ["\u{c5}", "\u{c5}\u{c5}", "\t", "\u{20ac}"] {
+            let text = format!("REMARK   1 {}{}\nATOM      1  CA  ALA A   1       1.000   2.000   3.000  1.00 10.00           C  \nEND\n", pre, "X".repeat(n));
+            push(&mut out, r, text.into_bytes(), "remark-bytes-vs-chars");
+        }
+    }
     // SEQRES documents that walk validate_seqres through all of its branches
     for _ in 0..budget(tier, 300, 12_000) {
         let lines = pdbtext::gen_seqres_doc(r);
